@@ -232,6 +232,9 @@ func (pm *Manager) LoadPeerstore() (addrs []ma.Multiaddr) {
 				pm.peerstorePath,
 				err,
 			)
+			// skip it: a nil multiaddress would make
+			// ImportPeers() panic.
+			continue
 		}
 		addrs = append(addrs, addr)
 	}
